@@ -289,13 +289,17 @@ def time_q(d, flags):
 
 
 def _opt_t(text, flags):
-    if text is None:
+    """(the element is present) its text -> Opt(instant); blank or not an instant: like a timing field that is not a number"""
+    if text is None or not text.strip():
+        flags["exact"] = False
+        flags["numeric"] = False
         return NIL
     try:
         from dateutil.parser import parse
         return time_q(parse(text), flags)
     except Exception:  # noqa: BLE001
         flags["exact"] = False
+        flags["numeric"] = False
         return NIL
 
 
